@@ -210,9 +210,17 @@ FMT_ARGS = ['p', 'a', 'n', 't', 'p, a', 'len', 'p.method', 'None']
 def fmt_case(rng):
     field = _pick(rng, FMT_FIELDS)
     arg = _pick(rng, FMT_ARGS)
-    how = rng.randrange(6)
+    how = rng.randrange(9)
     bind = {}
-    if how == 0:
+    first = arg.split(',')[0]
+    if how == 6:            # the bound method is not called by the expression: it is handed to a builtin
+        expr = f"sorted([{first}, [{first}]], key='{{{field}}}'.format)"
+    elif how == 7:
+        expr = f"list(map('{{{field}}}'.format, [{first}]))"
+    elif how == 8:
+        expr = f"max([{first}], key='{{{field.replace('0', 'k', 1)}}}'.format_map)" if rng.random() < 0.3 else \
+            f"(lambda f: f({first}))('{{{field}}}'.format)"
+    elif how == 0:
         expr = f"'{{{field}}}'.format({arg})"
     elif how == 1:
         expr = f"'{{{field.replace('0', 'k', 1)}}}'.format(k={arg.split(',')[0]})"
